@@ -179,6 +179,21 @@ def run_case(case):
     res = Result(case)
     if case["kind"] == "late-worker":
         return run_late_worker(case, res)
+    if case["kind"] == "status" and case["i"] % 5 == 2:
+        # max_time exactly at the makespan of this model (one less / equal / one more)
+        from . import build as B_
+        from . import instr as I_
+        I_.install()
+        I_.set_order(I_.default_order(spec))
+        try:
+            m0 = B_.build(spec)
+            B_.run(m0.project, spec, max_time=400)
+            if m0.project.status == P.FINISHED_SUCCESS:
+                spec = copy.deepcopy(spec)
+                spec["sim"]["max_time"] = max(0, m0.project.time + [-1, 0, 1][(case["i"] // 5) % 3])
+                res.count("C05.max_time_at_the_makespan")
+        except Exception:
+            pass
     sl = StepLog()
     m, tr, err = forward(spec, lambda started: [sl])
     res["source"] = case.get("source")
